@@ -141,6 +141,13 @@ def jobs_for(tier, seed):
         J.append(job(order(3, alphabet=(0, 2, 3), flt=True), drv(2, 2, elem=FLT), 0, None, {'order', 'triv'}, 'order: double with -0.0 / NaN, all pairs len<=3, N=2,2, C++17'))
         J.append(job(order(3, alphabet=(0, 2, 3), flt=True), drv(1, 3, elem=FLT, std='c++20'), 0, None, {'order', 'triv'}, 'order: double with -0.0 / NaN, all pairs len<=3, N=1 vs 3, C++20 (<=> is a partial ordering)'))
         J.append(job(order(2, alphabet=(0, 1, 2, 3), flt=True), drv(0, 0, elem=FLT, ALLOC=0, std='c++20', cxx='clang++'), 0, None, {'order', 'triv', 'stdalloc'}, 'order: double with -0.0 / NaN / 1.0, all pairs len<=2, N=0,0, std::allocator, clang C++20'))
+        # fancy pointers: the ledger allocator hands out FancyPtr<T> (XOR-encoded address, no implicit conversion to T*,
+        # value-initialised = null); the same contract, the same L2 scripts
+        J.append(job(one(2), drv(2, elem=NT, ALLOC=2), 1, 500, {'one', 'fault', 'tracked'}, 'one N=2 nothrow-move, fancy pointers'))
+        J.append(job(one(0), drv(0, elem=TRIV, ALLOC=2, std='c++20'), 0, 1000, {'one', 'triv'}, 'one N=0 trivially copyable, fancy pointers, C++20'))
+        tr = ALL_TRAITS[(rot * 5 + 3) % 16]
+        J.append(job(two(2, 3, **traits_mc(*tr)), drv(2, 3, elem=TM, ALLOC=2, std='c++14', **traits_drv(*tr)), 1, 400,
+                     {'two', 'fault', 'tracked', 'traits', 'mixedN'}, 'two N=2,3 throwing-move, fancy pointers, C++14, traits %d%d%d%d' % tr))
         # allocators with only one of construct / destroy; a construct() whose value-construction form leaves a mark
         # (default-init-allocator pattern): value-constructed elements must be what the allocator made them
         J.append(job(one(2), drv(2, elem=TRIV, CONSTRUCT=2), 0, 1200, {'one', 'triv'}, 'one N=2 trivially copyable, construct-only allocator marking value-construction'))
@@ -193,6 +200,13 @@ def jobs_for(tier, seed):
         for bits in (8, 16, 32):
             J.append(job(one(2, maxlen=4, maxcnt=2), drv(2, elem=TM, SIZET=bits), 1, None, {'one', 'tracked', 'narrow', 'fault'}, '%d-bit size_type, N=2, all single faults' % bits))
             J.append(job(two(2, 2, **traits_mc(0, 0, 0, 0)), drv(2, 2, elem=NT, SIZET=bits), 0, 6000, {'two', 'tracked', 'narrow'}, '%d-bit size_type, two containers' % bits))
+        for N, el, cp, nt in ((2, NT, True, True), (0, TM, True, False), (3, MOT, False, False), (2, TRIV, True, True), (0, INT, True, True)):
+            J.append(job(one(N, copyable=cp, nothrow=nt, maxlen=4, maxcnt=2), drv(N, elem=el, ALLOC=2), 1 if el not in (TRIV, INT) else 0, None,
+                         {'one', 'fault', 'tracked'} if el not in (TRIV, INT) else {'one', 'triv'}, 'one N=%d elem=%d fancy pointers' % (N, el)))
+        for i, tr in enumerate(ALL_TRAITS):
+            na, nb = ((2, 2), (0, 2), (3, 2), (2, 3))[i % 4]
+            J.append(job(two(na, nb, **traits_mc(*tr)), drv(na, nb, elem=(TM, NT)[i % 2], ALLOC=2, std=('c++11', 'c++17', 'c++20')[i % 3], **traits_drv(*tr)), 1, 3000,
+                         {'two', 'fault', 'tracked', 'traits', 'mixedN'}, 'two N=%d,%d fancy pointers traits %d%d%d%d' % ((na, nb) + tr)))
         for (na, nb) in ((0, 0), (1, 3), (2, 2)):
             for (std, cxx, al) in (('c++11', 'g++', 1), ('c++17', 'g++', 0), ('c++20', 'g++', 1), ('c++23', 'g++', 1), ('c++14', 'clang++', 1), ('c++20', 'clang++', 0)):
                 J.append(job(order(3, alphabet=(0, 1, 2, 3), flt=True), drv(na, nb, elem=FLT, ALLOC=al, std=std, cxx=cxx), 0, None, {'order', 'triv'},
